@@ -58,9 +58,10 @@ func OpenPackage(L *LState) int {
 	L.SetField(packagemod, "loaders", loaders)
 	L.SetField(L.Get(RegistryIndex), "_LOADERS", loaders)
 
-	loaded := L.NewTable()
+	// package.loaded IS the registry's _LOADED table (luaopen_package: luaL_findtable): the entry RegisterModule
+	// just made for this library, and any module registered before the package library was opened, stay in it
+	loaded := L.FindTable(L.Get(RegistryIndex).(*LTable), "_LOADED", 1)
 	L.SetField(packagemod, "loaded", loaded)
-	L.SetField(L.Get(RegistryIndex), "_LOADED", loaded)
 
 	L.SetField(packagemod, "path", LString(loGetPath(LuaPath, LuaPathDefault)))
 	L.SetField(packagemod, "cpath", emptyLString)
